@@ -5,4 +5,23 @@ EXTENDS Lock, Json
 CONSTANT GenLen
 GenEmit == (Len(hist) = GenLen \/ (Len(hist) < GenLen /\ Len(hist) > 3 /\ ~ENABLED Next)) => PrintT(<<"CASE", ToJson(hist)>>)
 GenStop == Len(hist) <= GenLen
+
+(* Majority-loss cases (exhaustive, Record = TRUE, one holder): every behaviour in which a handed-out lock gives up keys
+   for any combination of causes (third-party delete, expiry, failed extend) is printed at the step at which the
+   specification cancels the lock context, i.e. where the number of monitoring loops that are over crosses the majority;
+   `done` is the prediction the real locker is held to (lockdrv + LockTrace.tla: CancelAtKnownLoss). *)
+LossRecs == {"IoErr", "ExtNotLocked"}
+LastIsLoss == Len(hist) > 0 /\ hist[Len(hist)].a \in LossRecs
+LossEmit == (\E p \in Procs : phase[p] = "locked" /\ LostAll(p) = Maj /\ LastIsLoss /\ hist[Len(hist)].p = p)
+               => PrintT(<<"CASE", ToJson([h |-> hist, done |-> \A p \in Procs : phase[p] = "locked" => cancelled[p]])>>)
+\* Nothing is explored behind the crossing step, behind a user release or behind a successful extend (it changes nothing);
+\* the environment only acts on a lock whose K keys have all been tried.
+EnvRecs == {"ExtDelete", "Expire", "IoErr", "ExtNotLocked"}
+EnvSteps == SelectSeq(hist, LAMBDA r : r.a \in {"ExtDelete", "Expire", "IoErr"})
+LossStop == \A p \in Procs : /\ phase[p] # "ended" /\ Len(EnvSteps) <= GenLen       \* GenLen: environment steps per case
+                             /\ (LostAll(p) >= Maj => (LostAll(p) = Maj /\ LastIsLoss /\ hist[Len(hist)].p = p))
+                             /\ (Len(hist) > 0 => /\ hist[Len(hist)].a # "ExtOk"
+                                                  /\ (hist[Len(hist)].a \in EnvRecs => (phase[p] = "locked" /\ idx[p] = K)))
+\* states are identified up to the order of the library's own steps: the model state and the environment steps so far
+LossView == <<View, EnvSteps>>
 =============================================================================
